@@ -223,6 +223,10 @@ const lifeHb = 1
 // RunLifecycle executes one scenario in a bubble. leakExit reports that goroutines are still
 // blocked, so the bubble cannot end: the caller must write the record and exit the process.
 func RunLifecycle(t *testing.T, sc *LScenario, emit func(*LifeObs)) {
+	if sc.Phase == "accept" {
+		runAcceptRace(sc, emit)
+		return
+	}
 	func() {
 		baseGid := maxGoroutineID()
 		quiesce := func() { time.Sleep(15 * time.Millisecond) }
@@ -440,4 +444,70 @@ func RunLifecycle(t *testing.T, sc *LScenario, emit func(*LifeObs)) {
 		conn.Close()
 		quiesce()
 	}()
+}
+
+
+// heldListener: Accept hands out its one connection only when released (whether or not the listener has been closed meanwhile:
+// the connection was established before); further Accept calls fail once the listener is closed.
+type heldListener struct {
+	conn    net.Conn
+	release chan struct{}
+	closed  chan struct{}
+	once    sync.Once
+	mu      sync.Mutex
+	given   bool
+}
+
+func (l *heldListener) Accept() (net.Conn, error) {
+	l.mu.Lock()
+	first := !l.given
+	l.given = true
+	l.mu.Unlock()
+	if first {
+		<-l.release
+		return l.conn, nil
+	}
+	<-l.closed
+	return nil, errors.New("listener closed")
+}
+func (l *heldListener) Close() error   { l.once.Do(func() { close(l.closed) }); return nil }
+func (l *heldListener) Addr() net.Addr { return &net.TCPAddr{} }
+
+// runAcceptRace: the earliest point of a connection's life.  The local side closes the acceptor while a connection is being
+// accepted (established, not yet served): the socket is closed all the same, the serving call returns, nothing is left behind.
+func runAcceptRace(sc *LScenario, emit func(*LifeObs)) {
+	baseGid := maxGoroutineID()
+	o := &LifeObs{K: "life", ID: sc.ID, Scenario: *sc, Leaked: []string{}, ReachedPhase: true, Notified: true, SendersDone: true, SendReturned: true}
+	conn := NewLifeConn()
+	lst := &heldListener{conn: conn, release: make(chan struct{}), closed: make(chan struct{})}
+	acc := simplefixgo.NewAcceptor(lst, simplefixgo.NewAcceptorHandlerFactory(fixgen.FieldMsgType, sc.Buf), 150*time.Millisecond,
+		func(simplefixgo.AcceptorHandler) {})
+	serveDone := make(chan struct{})
+	go func() { _ = acc.ListenAndServe(); close(serveDone) }()
+	time.Sleep(5 * time.Millisecond) // Accept is waiting for its connection
+	if sc.GapMs < 0 {                // the connection arrives first, the close right behind it
+		close(lst.release)
+		time.Sleep(time.Duration(-sc.GapMs) * time.Millisecond)
+		acc.Close()
+	} else {
+		acc.Close()
+		time.Sleep(time.Duration(sc.GapMs) * time.Millisecond)
+		close(lst.release)
+	}
+	for i := 0; i < 100 && !conn.IsClosed(); i++ {
+		time.Sleep(5 * time.Millisecond)
+	}
+	o.SockClosed = conn.IsClosed()
+	select {
+	case <-serveDone:
+		o.ServeReturned = true
+	case <-time.After(500 * time.Millisecond):
+	}
+	time.Sleep(50 * time.Millisecond)
+	o.Leaked = libraryGoroutines(false, baseGid)
+	if o.Leaked == nil {
+		o.Leaked = []string{}
+	}
+	_ = conn.Close()
+	emit(o)
 }
